@@ -176,14 +176,18 @@ def _sync_coqproject():
     return False
 
 
-def build_coq(keep_going=True):
+def build_coq(keep_going=True, files=None):
     """Full .vo build (never -vos).  Returns (ok, log).  With keep_going, files that
-    do not depend on a broken one are still built."""
+    do not depend on a broken one are still built.  With `files` (module names), only those
+    .vo files and what they depend on are (re)built, so one property's check neither waits
+    for nor is broken by another property's proofs."""
     with Lock("coq"):
         changed = _sync_coqproject()
         if changed or not os.path.exists(os.path.join(COQ, "Makefile")):
             run_cmd(["coq_makefile", "-f", "_CoqProject", "-o", "Makefile"], cwd=COQ)
-        cmd = ["timeout", "3000", "make", "-j16"] + (["-k"] if keep_going else [])
+        cmd = ["timeout", "3000", "make", "-j16", "COQC=timeout 1500 coqc"] + (["-k"] if keep_going else [])
+        if files:
+            cmd += ["theories/%s.vo" % f for f in sorted(set(files) | {"Dispatch"})]
         rc, log, _ = run_cmd(cmd, cwd=COQ, timeout=3100, check=False)
         os.makedirs(BUILD, exist_ok=True)
         with open(os.path.join(BUILD, "coq-make.log"), "w") as f:
@@ -597,7 +601,7 @@ def run_check(prop, tier, seed, replay=None):
 
     # 1. Coq: full build, forbidden-vernacular grep, property theorems + assumptions
     forb = grep_forbidden()
-    coq_ok, coq_log = build_coq()
+    coq_ok, coq_log = build_coq(files=list(prop.coq_files) + list(prop.models) + ([prop.props] if prop.props else []))
     props_ok, theorems, assumptions_out = (False, [], "")
     broken = [f for f in prop.coq_files if not vo_ok(f)]
     if not broken and prop.props:
